@@ -1031,6 +1031,141 @@ def random_walk(rng, params, n):
     return steps
 
 
+# ---------------------------------------------------------------- section C2: static bodies with every kind of parameter
+def rich_def(name, posonly, pos, ndef, varargs, kwonly, varkw):
+    """`def name(self, <posonly>, /, <pos>, *args | *, <kwonly>, **kw)`; the last `ndef` of posonly + pos have a default;
+    kwonly = [(name, has default)]"""
+    positional = list(posonly) + list(pos)
+    k = len(positional) - ndef
+    parts = ['self']
+    for i, a in enumerate(positional):
+        parts.append(a if i < k else f'{a}={i}')
+        if posonly and i == len(posonly) - 1:
+            parts.append('/')
+    if varargs:
+        parts.append('*args')
+    elif kwonly:
+        parts.append('*')
+    parts += [f'{n}=True' if d else n for n, d in kwonly]
+    if varkw:
+        parts.append('**kw')
+    return f'    def {name}({", ".join(parts)}):\n        return 0'
+
+
+def static_signature_scenarios(ctx, out, stats=None):
+    """Static classes whose methods mix positional-only, positional, *args, keyword-only (with and without default) and
+    **kwargs parameters: the reflected EOperation lists the POSITIONAL parameters of the method (self first) in order,
+    required exactly those without a default in the Python signature.  Parameters that are not positional cannot be
+    declared by an EOperation; what the reflection does with them is not judged beyond: they do not disturb the
+    positional ones.  Own PRNG stream 'C20:staticsig'; the Python signature is read back with inspect."""
+    import inspect
+    common.use_repo()
+    stats = stats if stats is not None else {}
+    rng = common.rng_for(ctx.seed, 'C20:staticsig')
+    tag = {'scenario': 'staticsig', 'seed': ctx.seed, 'tier': ctx.tier, 'section': 'C2'}
+    shapes = []
+    for posonly in ([], ['a'], ['a', 'b']):
+        for pos in ([], ['c'], ['c', 'd']):
+            for ndef in range(0, len(posonly) + len(pos) + 1):
+                for varargs in (False, True):
+                    for kwonly in ([], [('k', True)], [('k', False)], [('k', True), ('m', True)], [('k', False), ('m', True)]):
+                        for varkw in (False, True):
+                            shapes.append((posonly, pos, ndef, varargs, kwonly, varkw))
+    rng.shuffle(shapes)
+    per_class = 6
+    n_classes = len(shapes) // per_class if ctx.tier == 'thorough' else 40
+    for ci in range(n_classes):
+        chunk = shapes[ci * per_class:(ci + 1) * per_class]
+        style = 'meta' if ci % 2 == 0 else 'decorator'
+        lines = ['from pyecore.ecore import *']
+        lines += [f'class S{ci}(EObject, metaclass=MetaEClass):'] if style == 'meta' else ['@EMetaclass', f'class S{ci}(object):']
+        lines += [rich_def(f'm{j}', *sh) for j, sh in enumerate(chunk)]
+        src = '\n'.join(lines) + '\n'
+        case = dict(tag, history=__import__('json').loads(__import__('json').dumps(chunk)), style=style, source=src)
+        stats['static_signature_classes'] = stats.get('static_signature_classes', 0) + 1
+        try:
+            cls = getattr(exec_static(src), f'S{ci}')
+        except Exception as e:      # noqa: BLE001
+            out.fail({'property': 'C20', 'clause': 'static-reflection-raised', 'culprit': 'promote', 'qualifiers': ['non-positional-parameters']},
+                     f'defining the static class raised {type(e).__name__}: {e}\n{src}', case)
+            continue
+        got = {o[0]: o[1] for o in reflected(cls)}
+        for j, sh in enumerate(chunk):
+            nm = f'm{j}'
+            pysig = inspect.signature(cls.__dict__[nm] if nm in cls.__dict__ else getattr(cls, nm))
+            want = [[p.name, 1 if p.default is inspect.Parameter.empty else 0] for p in pysig.parameters.values()
+                    if p.kind in (inspect.Parameter.POSITIONAL_ONLY, inspect.Parameter.POSITIONAL_OR_KEYWORD)]
+            others = {p.name for p in pysig.parameters.values()} - {w[0] for w in want}
+            stats['static_signature_methods'] = stats.get('static_signature_methods', 0) + 1
+            r = got.get(nm)
+            if r is None or [x for x in r if x[0] not in others] != want:
+                out.fail({'property': 'C20', 'clause': 'static-reflection', 'culprit': 'promote', 'qualifiers': ['non-positional-parameters']},
+                         f'static method `{rich_def(nm, *sh).strip().splitlines()[0]}`: reflected parameters (name, required) {r}, '
+                         f'the positional parameters of the Python signature are {want}', case)
+
+
+def random_bulk_walk(rng, params, n):
+    """n edits of which about half are BULK calls on eParameters (clear, del [:], del op.eParameters, extend of several,
+    +=, whole-list assignment, pop), the others single edits."""
+    cur = [list(p) for p in params]
+    steps = []
+
+    def some(k):
+        names = fresh_names(cur, 4)
+        out = [[names[j], 1, ['int', 'str', 'bool'][j % 3]] for j in range(rng.randint(0, 2))]
+        out += [[names[len(out) + j], 0, ['str', 'int', 'bool'][j % 3]] for j in range(rng.randint(0 if out else 1, 2))]
+        if rng.random() < 0.12 and len(out) >= 2:
+            out.reverse()                       # possibly optional before required: no Python signature
+        return out[:k]
+    for _ in range(n):
+        x = rng.random()
+        k = len(cur)
+        if x < 0.18:
+            e = [rng.choice(['clear', 'delslice', 'delattr'])]
+        elif x < 0.36:
+            e = [rng.choice(['extend', 'iadd']), some(3)]
+        elif x < 0.50:
+            e = ['assign', some(4) if rng.random() < 0.85 else []]
+        elif x < 0.58 and k:
+            e = ['pop', rng.choice([-1, 0, k - 1])]
+        elif x < 0.62:
+            e = ['extend', []]
+        else:
+            e = random_walk(rng, cur, 1)[0]
+        steps.append(e)
+        cur = mio.apply_param_edits(cur, [e])
+    return steps
+
+
+def bulk_param_scenarios(ctx, out, model=None, intern=None, stats=None):
+    """Own PRNG stream 'C20:bulkparams'; implementation + oracle only (every history edits a declared operation)."""
+    common.use_repo()
+    intern = intern or mio.Interner()
+    stats = stats if stats is not None else {'histories': 0, 'ops': 0, 'op_kinds': {}, 'outcomes': {}, 'samples': []}
+    thorough = ctx.tier == 'thorough'
+    rng = common.rng_for(ctx.seed, 'C20:bulkparams')
+    tag = {'scenario': 'bulkparams', 'seed': ctx.seed, 'tier': ctx.tier, 'section': 'E3'}
+    hs = []
+    two = [['x', 1, 'int'], ['y', 0, 'str']]
+    for params in (shape(1, 1), shape(2, 0), shape(0, 2)):
+        for emptier in (['clear'], ['delslice'], ['delattr'], ['assign', []]):
+            for filler in (['extend', two], ['iadd', two], ['assign', two], ['append', ['x', 1, 'int']]):
+                for pos, beh, upper in ((1, None, None), (2, 3, 1)):
+                    hs.append(walk_history('run', params, [emptier, filler, ['pop', -1], emptier], pos, beh, upper))
+        hs.append(walk_history('class', params, [['assign', two], ['extend', []], ['assign', [two[1], two[0]]], ['assign', two]], 2, None, None))
+    for _ in range(2000 if thorough else 200):
+        params = shape(rng.randrange(3), rng.randrange(3))
+        pos = rng.choice([1, 2, 2, 3])
+        hs.append(walk_history(rng.choice(['run', 'class', 'go']), params, random_bulk_walk(rng, params, rng.randint(3, 7)), pos,
+                               rng.choice([None, None, min(pos + 1, 3)]) if pos < 3 else None,
+                               rng.choice([None, 1]) if pos > 1 else None))
+    for h in hs:
+        name = [op[2] for op in h if op[0] == 'addop'][-1]
+        case = dict(tag, history=h, names=[norm(name), name])
+        run_history(out, model, intern, h, case['names'], case, stats)
+        stats['bulk_parameter_histories'] = stats.get('bulk_parameter_histories', 0) + 1
+
+
 def invalid_walk_scenarios(ctx, out, model=None, intern=None, stats=None):
     """Own PRNG stream 'C20:throughinvalid'; implementation + oracle only (every history edits a declared operation)."""
     common.use_repo()
@@ -1205,7 +1340,9 @@ def run(ctx, out):
     static_hierarchy_cases(out, model, stats, common.rng_for(ctx.seed, 'C20:hierarchy'), 60 if ctx.tier != 'thorough' else 1500)
     section_d(out, model, intern, stats, ctx)
     redeclare_scenarios(ctx, out, model, intern, stats)
+    static_signature_scenarios(ctx, out, stats)
     invalid_walk_scenarios(ctx, out, model, intern, stats)
+    bulk_param_scenarios(ctx, out, model, intern, stats)
     roundtrip_scenarios(ctx, out, stats)
     model.close()
     if mio.flag_installed():
@@ -1234,6 +1371,9 @@ def run(ctx, out):
         'redeclare_scenarios': stats['redeclare_scenarios'], 'redeclare_random_histories': stats['redeclare_random'],
         'edit_while_declared_scenarios': stats.get('edit_scenarios', 0),
         'edit_walks_through_invalid_parameter_lists': stats.get('through_invalid_histories', 0),
+        'edit_walks_with_bulk_calls_on_eParameters': stats.get('bulk_parameter_histories', 0),
+        'static_classes_with_non_positional_parameters': stats.get('static_signature_classes', 0),
+        'static_methods_with_non_positional_parameters': stats.get('static_signature_methods', 0),
         'roundtrips_through_ecore': stats.get('roundtrips_through_ecore', 0), 'methods_checked_in_roundtrips': stats.get('roundtrip_methods', 0),
         'roundtrips_whose_declaration_did_not_survive_the_file': stats.get('roundtrip_declaration_lost', 0),
         'histories_judged_by_the_oracle_only_(in_place_edits_of_declared_operations)': stats.get('oracle_only_histories', 0),
@@ -1246,7 +1386,8 @@ def run(ctx, out):
         'and keeps the operation declared without a method (model and implementation agree on that)',
         'default values are compared through repr(); parameter types used: EInt, EString, EBoolean, an EClass, a str-valued '
         'EDataType with default, an EEnum',
-        'varargs / keyword-only parameters of static methods are not generated (getfullargspec().args ignores them)',
+        'static methods with *args, keyword-only, positional-only and **kwargs parameters (section C2): only the positional '
+        'parameters are judged (names in order, required iff no default); an EOperation cannot declare the other kinds',
         'RestrictedPython compiles the generated source: its naming policy is part of the model (Operations.restricted_name)',
         'parameters edited while the operation is declared: the generated method follows at once (fix e6fe3b2), an attached '
         'behaviour stays; the Coq model has no in-place edits, such histories are judged by the oracle only; while the edited '
@@ -1259,6 +1400,10 @@ def replay(ctx, rep):
     case = rep['case']
     if case.get('scenario') == 'roundtrip':
         return common.scenario_replay(ctx, rep, {'roundtrip': roundtrip_scenarios})
+    if case.get('scenario') == 'staticsig':
+        return common.scenario_replay(ctx, rep, {'staticsig': static_signature_scenarios})
+    if case.get('scenario') == 'bulkparams':
+        return common.scenario_replay(ctx, rep, {'bulkparams': bulk_param_scenarios})
     if case.get('scenario') == 'throughinvalid':
         return common.scenario_replay(ctx, rep, {'throughinvalid': invalid_walk_scenarios})
     intern = mio.Interner()
